@@ -4,6 +4,7 @@ mod spec;
 mod p_kmer;
 mod p_min;
 mod p_posmaps;
+mod p_count;
 mod p_reader;
 mod p_degen;
 mod p_cov;
@@ -92,6 +93,7 @@ fn main() {
         "c09" => p_min::c09(&o),
         "c03" => p_posmaps::c03(&o),
         "c04" => p_rows::c04(&o),
+        "c07" => p_count::c07(&o),
         "c05" => p_rows::c05(&o),
         "c06" => p_reader::c06(&o),
         "c16" => p_degen::c16(&o),
